@@ -374,3 +374,19 @@ Proof.
   split; [exact H1|]. split; [| repeat split].
   rewrite <- (Hob _ H1). apply dense_in_range_lemma. intros E. pose proof (Hob _ H1) as Hl'. rewrite E in Hl'. cbn in Hl'. lia.
 Qed.
+
+(* ------------------------------------------------------------------ factored model *)
+Lemma coop_next_in_range_lemma : forall rows us, Forall (fun r : vec => r <> []) rows -> length us = length rows ->
+  Forall2 (fun r i => (i < length r)%nat) rows (coop_next rows us).
+Proof.
+  unfold coop_next. induction rows as [|r rows IH]; intros us Hne Hl.
+  - destruct us; [constructor| discriminate].
+  - destruct us as [|u us]; [discriminate|]. inversion Hne; subst. cbn [combine map fst snd].
+    constructor; [apply dense_in_range_lemma; assumption| apply IH; [assumption| cbn in Hl; lia]].
+Qed.
+
+(* sampleSR's reward is the sum of the per-basis rewards of sampleSRs, each a table entry *)
+Lemma coop_reward_sum_lemma : forall Sz Az bases s a,
+  coop_reward Sz Az bases s a == qsum (coop_rewards Sz Az bases s a) /\
+  length (coop_rewards Sz Az bases s a) = length bases.
+Proof. intros. unfold coop_reward, coop_rewards. split; [reflexivity| apply map_length]. Qed.
